@@ -226,7 +226,7 @@ def run(ctx):
         ks = [k for k, b in enumerate(blocks) if b[0][3] == resn and 0 < k < len(blocks) - 20]
         for k in ks[:1 if not ctx.thorough() else 3]:
             coupled_starts.append((f"{src}-from-{resn}{blocks[k][0][1].strip()}",
-                                   C.join([ln for b in blocks[k:(None if resn == "CYS" else k + 45)] for ln in b[1] if ln[16] in " A"] + [C.TER]), []))
+                                   C.join([ln for b in blocks[k:(None if resn in ("CYS", "ASP") else k + 45)] for ln in b[1] if ln[16] in " A"] + [C.TER]), []))
     # a free cysteine hydrogen-bonded to the buried catalytic histidine (point mutation S195C of 3SGB: OG becomes SG)
     s195c = []
     for ln in C.body(C.test_pdb_text("3SGB")):
